@@ -331,3 +331,78 @@ M("C06", "strip-pops-first-match-only", "poolmanager.py",
   "                    new_headers.pop(header, None)\n", "                    new_headers.pop(header, None)\n                    break\n", rule="C06-R1")
 M("C06", "same-host-port-default-missing", "connectionpool.py",
   "            host = _normalize_host(host, scheme=scheme)\n", "            host = host.lower()\n", rule="C06-R4")
+
+# --------------------------------------------------------------------------- C07
+M("C07", "is-verified-literal-true", "connection.py",
+  "            is_verified=context.verify_mode == ssl.CERT_REQUIRED\n            or bool(assert_fingerprint),", "            is_verified=True,", rule="C07-R3")
+M("C07", "is-verified-widened-to-not-none", "connection.py",
+  "            is_verified=context.verify_mode == ssl.CERT_REQUIRED\n", "            is_verified=context.verify_mode != ssl.CERT_NONE\n", rule="C07-R3")
+M("C07", "skip-match-hostname-when-pyopenssl", "connection.py",
+  "            context.verify_mode != ssl.CERT_NONE\n            and not context.check_hostname\n            and assert_hostname is not False\n        ):",
+  "            context.verify_mode != ssl.CERT_NONE\n            and not context.check_hostname\n            and not ssl_.IS_PYOPENSSL\n            and assert_hostname is not False\n        ):", rule="C07-R3")
+M("C07", "check-hostname-always-off", "connection.py",
+  "        or ssl_.IS_PYOPENSSL\n        or not ssl_.HAS_NEVER_CHECK_COMMON_NAME\n    ):\n        context.check_hostname = False",
+  "        or ssl_.IS_PYOPENSSL\n        or not ssl_.HAS_NEVER_CHECK_COMMON_NAME\n        or True\n    ):\n        context.check_hostname = False\n    default_ssl_context = default_ssl_context and bool(context.check_hostname or True)", rule=None, benign=True)
+M("C07", "match-condition-flipped-check-hostname", "connection.py",
+  "            and not context.check_hostname\n            and assert_hostname is not False", "            and context.check_hostname\n            and assert_hostname is not False", rule="C07-R3")
+M("C07", "return-before-fingerprint-check", "connection.py",
+  "    try:\n        if assert_fingerprint:\n            _assert_fingerprint(\n                ssl_sock.getpeercert(binary_form=True), assert_fingerprint\n            )\n        elif (",
+  "    try:\n        if assert_fingerprint and cert_reqs is not None:\n            _assert_fingerprint(\n                ssl_sock.getpeercert(binary_form=True), assert_fingerprint\n            )\n        elif (", rule="C07-R3")
+M("C07", "verify-callback-accepts-all", "contrib/pyopenssl.py",
+  "    return err_no == 0", "    return True", rule="C07-R7")
+M("C07", "default-cert-none", "util/ssl_.py",
+  "    if candidate is None:\n        return CERT_REQUIRED\n\n    if isinstance(candidate, str):\n        res = getattr(ssl, candidate, None)\n        if res is None:\n            res = getattr(ssl, \"CERT_\" + candidate)",
+  "    if candidate is None:\n        return ssl.CERT_NONE\n\n    if isinstance(candidate, str):\n        res = getattr(ssl, candidate, None)\n        if res is None:\n            res = getattr(ssl, \"CERT_\" + candidate)", rule="C07-R3")
+M("C07", "failed-check-leaves-socket-open", "connection.py",
+  "    except BaseException:\n        ssl_sock.close()\n        raise\n\n\ndef _match_hostname", "    except OSError:\n        ssl_sock.close()\n        raise\n\n\ndef _match_hostname", rule="C07-R4")
+M("C07", "request-before-validate", "connectionpool.py",
+  "            # Trigger any extra validation we need to do.\n            try:\n                self._validate_conn(conn)",
+  "            # Trigger any extra validation we need to do.\n            try:\n                if conn.is_closed:\n                    self._validate_conn(conn)", rule="C07-R1")
+M("C07", "validate-skips-connect", "connectionpool.py",
+  "        # Force connect early to allow us to validate the connection.\n        if conn.is_closed:\n            conn.connect()\n", "", rule="C07-R1")
+M("C07", "sni-uses-self-host-through-tunnel", "connection.py",
+  "                server_hostname = typing.cast(str, self._tunnel_host)\n", "", rule="C07-R8")
+M("C07", "sock-not-replaced-by-wrapped", "connection.py",
+  "            self.sock = sock_and_verified.socket\n\n        # If an error occurs during connection/handshake", "            sock = sock_and_verified.socket\n\n        # If an error occurs during connection/handshake", rule="C07-R2")
+M("C07", "forwarding-proxy-reports-verified", "connection.py",
+  "        if self.proxy_is_forwarding:\n            self.is_verified = False\n        else:\n            self.is_verified = sock_and_verified.is_verified",
+  "        self.is_verified = sock_and_verified.is_verified", rule="C07-R2")
+M("C07", "warning-only-when-no-proxy", "connectionpool.py",
+  "        if not conn.is_verified and not conn.proxy_is_verified:", "        if not conn.is_verified and conn.proxy_is_verified is None:", rule="C07-R6")
+M("C07", "mismatch-logged-not-raised", "connection.py",
+  "        e._peer_cert = cert  # type: ignore[attr-defined]\n        raise\n", "        e._peer_cert = cert  # type: ignore[attr-defined]\n", rule="C07-R9")
+M("C07", "assert-hostname-ignored-uses-sni", "connection.py",
+  "                assert_hostname or server_hostname,  # type: ignore[arg-type]", "                server_hostname,  # type: ignore[arg-type]", rule="C07-R3")
+
+# --------------------------------------------------------------------------- C08
+M("C08", "end-anchor-dollar", "util/ssl_match_hostname.py",
+  'pat = re.compile(r"\\A" + r"\\.".join(pats) + r"\\Z", re.IGNORECASE)', 'pat = re.compile(r"\\A" + r"\\.".join(pats) + r"$", re.IGNORECASE)', rule="C08-R1")
+M("C08", "whole-label-wildcard-may-be-empty", "util/ssl_match_hostname.py",
+  '        pats.append("[^.]+")', '        pats.append("[^.]*")', rule="C08-R1")
+M("C08", "wildcard-spans-dots", "util/ssl_match_hostname.py",
+  '        pats.append("[^.]+")', '        pats.append(".+")', rule="C08-R1")
+M("C08", "wildcard-in-any-label", "util/ssl_match_hostname.py",
+  "    for frag in remainder:\n        pats.append(re.escape(frag))", "    for frag in remainder:\n        pats.append(re.escape(frag).replace(r\"\\*\", \"[^.]*\"))", rule="C08-R1")
+M("C08", "max-wildcards-two", "util/ssl_match_hostname.py",
+  "    dn: typing.Any, hostname: str, max_wildcards: int = 1", "    dn: typing.Any, hostname: str, max_wildcards: int = 2", rule="C08-R2")
+M("C08", "case-sensitive-match", "util/ssl_match_hostname.py",
+  'pat = re.compile(r"\\A" + r"\\.".join(pats) + r"\\Z", re.IGNORECASE)', 'pat = re.compile(r"\\A" + r"\\.".join(pats) + r"\\Z")', rule="C08-R1")
+M("C08", "idn-check-only-on-cert-side", "util/ssl_match_hostname.py",
+  '    elif leftmost.startswith("xn--") or hostname.startswith("xn--"):', '    elif leftmost.startswith("xn--"):', rule="C08-R3")
+M("C08", "cn-consulted-with-sans-present", "util/ssl_match_hostname.py",
+  "    if hostname_checks_common_name and host_ip is None and not dnsnames:", "    if hostname_checks_common_name and host_ip is None:", rule="C08-R4")
+M("C08", "dns-san-against-ip-host", "util/ssl_match_hostname.py",
+  "            if host_ip is None and _dnsname_match(value, hostname):", "            if _dnsname_match(value, hostname):", rule="C08-R4")
+M("C08", "ip-compared-as-text", "util/ssl_match_hostname.py",
+  "    return bool(ip.packed == host_ip.packed)", "    return bool(str(ip) == str(host_ip) or ipname.rstrip() == str(host_ip))", rule="C08-R5")
+M("C08", "accept-16-char-pins", "util/ssl_.py",
+  'for length, algorithm in ((32, "md5"), (40, "sha1"), (64, "sha256"))', 'for length, algorithm in ((16, "md5"), (32, "md5"), (40, "sha1"), (64, "sha256"))', rule="C08-R7")
+M("C08", "fingerprint-case-sensitive", "util/ssl_.py",
+  '    fingerprint = fingerprint.replace(":", "").lower()', '    fingerprint = fingerprint.replace(":", "")', rule="C08-R7")
+M("C08", "fingerprint-mismatch-only-warns", "util/ssl_.py",
+  "    if not hmac.compare_digest(cert_digest, fingerprint_bytes):\n        raise SSLError(", "    if not hmac.compare_digest(cert_digest, fingerprint_bytes) and cert_digest is None:\n        raise SSLError(", rule="C08-R7")
+M("C08", "brackets-stripped-for-dns-names", "connection.py",
+  "    stripped_hostname = asserted_hostname.strip(\"[]\")\n    if is_ipaddress(stripped_hostname):\n        asserted_hostname = stripped_hostname",
+  "    stripped_hostname = asserted_hostname.strip(\"[]\")\n    asserted_hostname = stripped_hostname", rule="C08-R6")
+M("C08", "match-success-without-match", "util/ssl_match_hostname.py",
+  "            if host_ip is not None and _ipaddress_match(value, host_ip):\n                return", "            if host_ip is not None or _ipaddress_match(value, host_ip):\n                return", rule="C08-R4")
